@@ -21,11 +21,13 @@ import vplib as V
 PROP_FILES = [os.path.join(V.PROPS, "C03.v")]
 TVN_RTOL = 1e-13      # T, V, N of a non-iterative state: model (exact rational) vs implementation (f64)
 P_RTOL = 1e-7         # pressure of an iterative state vs request
+P_ATOL = 1e-4         # Pa; the density iteration's absolute tolerance is 1e-12 k_B K/A^3 = 1.4e-5 Pa
 HSU_RTOL = 1e-6       # h, s, u of a Newton-wrapper state vs request (relative to |target| + R T resp. R)
 X_RTOL = 1e-12        # composition of a (T,p,V,x) state
 TRACE_RTOL = 1e-8     # evaluated densities of the density iteration, model vs implementation
 NEAR_TIE = 1e-5       # decision margins below this are skipped (counted)
 RGAS = 8.31446261815324
+NEWTON_ERRORS = []
 
 
 def zf(v):
@@ -87,10 +89,10 @@ def compare_case(case, api, model, impl):
             return "N differs: model %r, implementation %r" % ([fl(x) for x in v], impl["N"])
         return None
     # iterative request
-    t_given = {1: s[0], 2: s[0], 5: s[0], 6: s[0]}.get(k)
-    v_given = {2: s[2], 7: s[0]}.get(k)
-    targets = {1: [("p", s[1])], 2: [("p", s[1])], 3: [("p", s[0]), ("h", s[1])], 4: [("p", s[0]), ("s", s[1])],
-               5: [("h", s[1])], 6: [("s", s[1])], 7: [("u", s[1])]}[k]
+    t_given = s[0] if k in (1, 2, 5, 6) else None
+    v_given = s[2] if k == 2 else (s[0] if k == 7 else None)
+    tn = {1: ["p"], 2: ["p"], 3: ["p", "h"], 4: ["p", "s"], 5: ["h"], 6: ["s"], 7: ["u"]}[k]
+    targets = [(tn[0], s[1])] if len(tn) == 1 else [(tn[0], s[0]), (tn[1], s[1])]
     must_fail = []
     if t_given is not None and not is_valid(t_given):
         must_fail.append("T")
@@ -103,9 +105,14 @@ def compare_case(case, api, model, impl):
     for name, tv in targets:
         if not math.isfinite(fl(tv)):
             must_fail.append(name)
+    if v_given is not None and fl(v_given) == 0.0 and is_valid(v_given):
+        return None     # V = +0.0 passes validate(); the (empty) state that results has no composition / pressure to compare
     if "ok" not in impl:
-        if case["injected"] is None:
+        if case["injected"] is None and k in (1, 2):
+            # the success clause of the property covers (T,p) states; a Newton wrapper may fail to converge (counted)
             return "well-formed %s request, implementation: error %s" % (KIND_NAMES[k], impl.get("msg"))
+        if case["injected"] is None:
+            NEWTON_ERRORS.append({"kind": KIND_NAMES[k], "inputs": {a: b for a, b in case["inputs"].items() if b is not None}, "error": impl.get("msg")})
         return None
     if must_fail:
         return "%s request with bad %s was turned into a state" % (KIND_NAMES[k], ",".join(must_fail))
@@ -125,7 +132,7 @@ def compare_case(case, api, model, impl):
     for name, tv in targets:
         got = jnum(impl[name])
         if name == "p":
-            ok = close(tv, got, P_RTOL)
+            ok = close(tv, got, P_RTOL) or abs(fl(tv) - got) <= P_ATOL
         elif name == "s":
             ok = close(tv, got, HSU_RTOL, RGAS)
         else:
@@ -137,28 +144,33 @@ def compare_case(case, api, model, impl):
 
 def compare_di(case, model):
     """density iteration on the mock: model = ((code,(n,d)), [(tag,(n,d))...])"""
-    (code, (rn, rd)), tr = model
+    code, (rn, rd), tr = model      # Coq prints the left-nested pair ((code, rho), trace) flat
+    tr = [(t, (n, 2 ** int(e))) for (t, (n, e)) in tr]      # printed as (floor(q 2^e), e)
+    rd = 2 ** int(rd)
     margins = [float(Fraction(int(n), int(d))) for (t, (n, d)) in tr if int(t) in (7, 8)]
     if any(abs(m - 1.0) < NEAR_TIE for m in margins):
         return "near-tie", None
     mtr = [(int(t), float(Fraction(int(n), int(d)))) for (t, (n, d)) in tr if int(t) in (2, 3)]
     itr = [(int(t), r) for t, r in case["trace"]]
     res = case["result"]
+    if any(not (r * case["b"] < 0.999) for _, r in itr):
+        return "out-of-domain", None      # the f64 mock left the domain of ln(1 - b rho); the rational oracle has no such pole
     if int(code) != res["code"]:
         return "bad", "result differs: model code %d, implementation %s" % (int(code), res)
     if int(code) == 0:
         mr = float(Fraction(int(rn), int(rd)))
-        if not close(mr, res["rho"], TRACE_RTOL):
+        if not (close(mr, res["rho"], TRACE_RTOL) or abs(mr - res["rho"]) <= 1e-20):
             return "bad", "returned density differs: model %r, implementation %r" % (mr, res["rho"])
     if len(mtr) != len(itr):
         return "bad", "trace length differs: model %d evaluations, implementation %d" % (len(mtr), len(itr))
     for j, ((mt, mr), (it, ir)) in enumerate(zip(mtr, itr)):
-        if mt != it or not close(mr, ir, TRACE_RTOL):
+        if mt != it or not (close(mr, ir, TRACE_RTOL) or abs(mr - ir) <= 1e-20):
             return "bad", "evaluation %d differs: model (order %d, rho %r), implementation (order %d, rho %r)" % (j, mt, mr, it, ir)
     return "ok", None
 
 
 def run(ctx):
+    del NEWTON_ERRORS[:]
     impl = V.run_harness("c03", ctx)
     gen_files = sorted(os.path.join(ctx.gen, f) for f in os.listdir(ctx.gen) if f.endswith(".v"))
     lib = V.check_props(ctx, PROP_FILES, gen_files)
@@ -219,7 +231,7 @@ def run(ctx):
                      "builder": case.get("builder"), "new": case.get("new"), "more_mismatches": len(mism)}, found_input=True)
 
     # ---- 2. density iteration traces
-    di_stat = {"ok": 0, "near-tie": 0, "bad": 0}
+    di_stat = {"ok": 0, "near-tie": 0, "out-of-domain": 0, "bad": 0}
     di_bad = []
     for case in impl["di_cases"]:
         m = model_di.get(case["id"])
@@ -279,7 +291,9 @@ def run(ctx):
         "model_outcome_census": dict(sorted(class_census.items())),
         "density_iteration_trace_cases": di_stat,
         "model_evaluations": n_gen,
-        "tolerances": {"T,V,N": TVN_RTOL, "pressure": P_RTOL, "h,s,u": HSU_RTOL, "composition": X_RTOL, "trace densities": TRACE_RTOL,
+        "newton_wrapper_errors_on_wellformed_patterns": len(NEWTON_ERRORS),
+        "newton_wrapper_error_samples": NEWTON_ERRORS[:3],
+        "tolerances": {"T,V,N": TVN_RTOL, "pressure": P_RTOL, "pressure_abs_Pa": P_ATOL, "h,s,u": HSU_RTOL, "composition": X_RTOL, "trace densities": TRACE_RTOL,
                        "near-tie margin": NEAR_TIE},
         "nonfinite_pressure_cases": len(impl["nonfinite_pressure"]),
         "support_search": {k: v for k, v in sw.items() if k not in ("failures",)},
